@@ -4,6 +4,7 @@ import random
 import re
 
 from harness.lib.framework import Prop, coq_list, coq_N, coq_nat, coq_opt, coq_str
+from harness.lib.looputil import permute_ready
 
 TAG = re.compile(r"^(0|[1-9][0-9]*)(\.(0|[1-9][0-9]*))*$")
 STATUS = {"SKIPPED": "Skipped", "COMPLETED": "Completed", "FAILED": "Failed", "CANCELLED": "Cancelled",
@@ -496,10 +497,7 @@ class C01(Prop):
             class ShuffleLoop(asyncio.SelectorEventLoop):
                 def _run_once(self):
                     if len(self._ready) > 1:
-                        items = list(self._ready)
-                        rnd.shuffle(items)
-                        self._ready.clear()
-                        self._ready.extend(items)
+                        permute_ready(self._ready, rnd.shuffle)   # thread-safe, same order (harness/lib/looputil.py)
                     super()._run_once()
 
             with asyncio.Runner(loop_factory=ShuffleLoop) as runner:
